@@ -264,7 +264,7 @@ def o6(h, st):
 def sv_structures(tier):
     sts = []
     for nq in (1, 2, 3) if tier == "quick" else (1, 2, 3, 4):
-        for kind in ("dense", "real", "sparse", "basis", "uniform"):
+        for kind in ("dense", "real", "sparse", "basis", "uniform", "near_real", "tiny_phase", "tiny_amplitudes", "near_product", "balanced_signs", "tiny_rotation"):
             for order in ("msq_first", "lsq_first"):
                 sts.append({"nq": nq, "kind": kind, "order": order})
     return sts
@@ -293,6 +293,33 @@ def o7(h, st):
     elif st["kind"] == "basis":
         v = np.zeros(d, dtype=complex)
         v[rng.integers(d)] = np.exp(1j * rng.uniform(0, 6))
+    elif st["kind"] == "near_real":
+        # positive real amplitudes with imaginary round-off noise: relative phases tiny but not exactly zero
+        v = np.abs(rng.normal(size=d)) + 0.1 + 1e-10j * rng.normal(size=d)
+    elif st["kind"] == "tiny_phase":
+        v = np.abs(rng.normal(size=d)) + 0.1 + 0j
+        v[rng.integers(d)] *= np.exp(1e-9j)
+    elif st["kind"] == "tiny_amplitudes":
+        v = rng.normal(size=d) + 1j * rng.normal(size=d)
+        idx = rng.choice(d, size=max(1, d // 2), replace=False)
+        v[idx] *= 1e-9
+    elif st["kind"] == "near_product":
+        # |0...0> plus a perturbation of size 1e-9: all rotation angles tiny but non-zero
+        v = np.zeros(d, dtype=complex)
+        v[0] = 1
+        v = v + 1e-9 * (rng.normal(size=d) + 1j * rng.normal(size=d))
+    elif st["kind"] == "balanced_signs":
+        # real vector whose relative phases (0 / pi) cancel in the sum at some peeling level
+        v = np.abs(rng.normal(size=d)) + 0.1 + 0j
+        v[1::2] *= -1
+        if d >= 4:
+            v[2] *= -1
+            v[3] *= -1
+    elif st["kind"] == "tiny_rotation":
+        # exactly real, one pair rotated by a tiny angle: RY angles of a level tiny but non-zero, RZ angles exactly zero
+        v = np.zeros(d, dtype=complex)
+        v[0] = 1
+        v[-1] = 1e-9
     else:
         v = np.ones(d, dtype=complex)
     v = v / np.linalg.norm(v)
@@ -305,12 +332,15 @@ def o7(h, st):
         perm = [int(format(i, f"0{nq}b")[::-1], 2) for i in range(d)]
         out = out[perm]
     err = float(np.max(np.abs(out - v)))
-    h.check("prepared state (with the returned phase) equals the input vector", err < 1e-9, detail=f"max err {err:.2e}")
+    # amplitudes of relative size ~1e-9: theta = 2 arccos(|a| / r) with |a| / r within machine epsilon of 1 loses half of the digits (floating point, not a contract
+    # matter): the achievable accuracy is sqrt(machine epsilon) ~ 1.5e-8 for these families
+    tol = 1e-7 if st["kind"] in ("tiny_amplitudes", "near_product", "tiny_rotation") else 1e-9
+    h.check("prepared state (with the returned phase) equals the input vector", err < tol, detail=f"max err {err:.2e}")
     unc, ph2 = h.call(SV, "StateVector.uncomputing_circuit", sv, True)
     U2 = qsem.to_numpy(qsem.unitary(unc._gates, nq, exact=False)[0], nq)
     vin = v if st["order"] == "lsq_first" else v[[int(format(i, f"0{nq}b")[::-1], 2) for i in range(d)]]
     res = U2 @ vin
-    h.check("uncomputing circuit maps the vector to |0...0> (up to the returned phase)", abs(abs(res[0]) - 1) < 1e-9 and abs(res[0] * np.exp(1j * ph2) - 1) < 1e-9,
+    h.check("uncomputing circuit maps the vector to |0...0> (up to the returned phase)", abs(abs(res[0]) - 1) < tol and abs(res[0] * np.exp(1j * ph2) - 1) < tol,
             detail=f"|res0|={abs(res[0]):.6f} phase defect={abs(res[0] * np.exp(1j * ph2) - 1):.2e}")
     h.done()
 
